@@ -66,6 +66,10 @@ def body(run):
         only_param = hi % 6 == 2
         if only_param:
             pre = ['param-junk', 'param-empty'][(hi // 6) % 2]
+        # ... and every sixth: an EMPTY corrected file (a placeholder made by `touch`) is there and the first call does not ask to overwrite
+        only_empty_corr = hi % 6 == 4
+        if only_empty_corr:
+            pre = 'corr-empty'
         if pre in ('corr-junk', 'both-junk'):
             corr.write_bytes(b'OLD CORRECTED FILE')
         if pre in ('param-junk', 'both-junk'):
@@ -96,6 +100,8 @@ def body(run):
                 mp = (rng.random() < 0.3) if not flip else (f_mp if ci % 2 == 0 else not f_mp)
                 if only_param and ci == 0:
                     ow, wp = False, True
+                if only_empty_corr and ci == 0:
+                    ow = False
                 before = snapshot(d)
                 ce, pe = corr.exists(), param.exists()
                 obs, err = call(rf, corr, param if wp else None, ow, as_str, model, kshape, mbm, mask_partial=mp)
